@@ -1664,14 +1664,11 @@ class Stream(AbstractStream):
         
         """
         imol = self._imol
-        if hasattr(imol, '_phase'):
-            if isinstance(imol._phase, tmo._phase.LockedPhase):
-                raise RuntimeError('phase is locked; stream cannot be unlinked')
-            else:
-                imol._phase = imol._phase.copy()
-        imol._data_cache.clear()
-        imol.data = imol.data.copy()
+        if hasattr(imol, '_phase') and isinstance(imol._phase, tmo._phase.LockedPhase):
+            raise RuntimeError('phase is locked; stream cannot be unlinked')
+        self._imol = imol.copy()
         self._thermal_condition = self._thermal_condition.copy()
+        if hasattr(self, '_streams'): self._streams.clear()
         self.reset_cache()
         
     def copy_like(self, other):
